@@ -835,8 +835,13 @@ def check_sessions(ck, n_scen):
             if text not in out or out.index(text) > out.rindex(exp_lines[1]):
                 ck.disagree('c18.session: summary of uniform values missing from stdout (or after the table)', inp,
                             {'stdout_tail': out[-900:]}, {'summary': rows_model['summary']}, TH_TABLE)
-                ck.oracle_fail('column_kept_or_moved', inp, {'summary_block_printed': False},
-                               signature={'clause': 'column_kept_or_moved', 'level': 'session'})
+        # oracle on the text: every expected column is a header column or a line of the summary block
+        summary_names = set(l.split('  ')[0].strip() for l in out.split('\n') if l.startswith(' '))
+        lost = [c for c in COLS if c not in header and c not in summary_names]
+        if lost:
+            ck.oracle_fail('column_kept_or_moved', inp, {'columns_neither_in_table_nor_summary': lost,
+                                                         'stdout_tail': out[-900:]},
+                           signature={'clause': 'column_kept_or_moved', 'level': 'session'})
 
 
 def table_row_lines(out):
